@@ -114,6 +114,8 @@ class Case:
             elif kind == "pos":
                 v[name] = core.var(name)
                 CTX.pre.append(v[name].n > 0)
+            elif kind == "int":
+                v[name] = R.of(z3.ToReal(z3.Int(name)))
             elif kind == "angle":
                 v[name] = angle_input(name, opts.get("lo", "0"))
             elif kind == "hyp":
@@ -140,7 +142,7 @@ class Case:
         out = []
         for spec in self.inputs:
             name, kind = spec[0], spec[1]
-            if kind in ("real", "pos"):
+            if kind in ("real", "pos", "int"):
                 out.append(name)
             elif kind == "angle":
                 out += [f"c_{name}", f"s_{name}", f"val_{name}"]
@@ -199,7 +201,9 @@ class Case:
         for spec in self.inputs:
             name, kind = spec[0], spec[1]
             opts = spec[2] if len(spec) > 2 else {}
-            if kind in ("real", "pos"):
+            if kind == "int":
+                v[name] = int(model.get(name, 0))
+            elif kind in ("real", "pos"):
                 v[name] = _f(model.get(name, 1.0 if kind == "pos" else 0.0))
             elif kind == "angle":
                 c, s = _f(model.get(f"c_{name}", 1.0)), _f(model.get(f"s_{name}", 0.0))
